@@ -131,7 +131,7 @@ func compareStreams(want, got []walkEvent) string {
 }
 
 var c10Kinds = []string{"Nil", "Identifier", "Integer", "Float", "Bool", "String", "Constant", "Unary", "Binary", "Matches", "Property", "Index", "Slice", "SliceFrom", "SliceTo", "SliceBoth",
-	"Method", "Method0", "Function", "Function0", "Builtin1", "Builtin2", "Closure", "Pointer", "Conditional", "Array", "Array0", "Map", "Map0", "Pair"}
+	"Method", "Method0", "Function", "Function0", "Builtin1", "Builtin2", "Closure", "Pointer", "Conditional", "Elvis", "Array", "Array0", "Map", "Map0", "Pair"}
 
 // mkNode builds a node of the given kind whose child slots are filled by next().
 func mkNode(kind string, next func() ast.Node) ast.Node {
@@ -186,6 +186,10 @@ func mkNode(kind string, next func() ast.Node) ast.Node {
 		return &ast.PointerNode{}
 	case "Conditional":
 		return &ast.ConditionalNode{Cond: next(), Exp1: next(), Exp2: next()}
+	case "Elvis":
+		// a ?: b as the parser builds it: one node in both slots
+		shared := next()
+		return &ast.ConditionalNode{Cond: shared, Exp1: shared, Exp2: next()}
 	case "Array":
 		return &ast.ArrayNode{Nodes: []ast.Node{next(), next(), next()}}
 	case "Array0":
@@ -263,6 +267,17 @@ func c10CheckTree(c *runner.Ctx, root ast.Node, desc string) {
 	}
 	// replacement through the slot takes effect
 	before, _ := countMarkers(&root)
+	elvisBefore := map[*ast.ConditionalNode]bool{}
+	var collectElvis func(n ast.Node)
+	collectElvis = func(n ast.Node) {
+		if cn, ok := n.(*ast.ConditionalNode); ok && cn.Cond != nil && cn.Cond == cn.Exp1 {
+			elvisBefore[cn] = true
+		}
+		for _, s := range walkSlots(n) {
+			collectElvis(*s)
+		}
+	}
+	collectElvis(root)
 	if before > 0 {
 		_, sevens0 := countMarkers(&root)
 		mr := &markReplacer{}
@@ -273,6 +288,22 @@ func c10CheckTree(c *runner.Ctx, root ast.Node, desc string) {
 		c.Eval(1)
 		after, sevens := countMarkers(&root)
 		c.Count("replacements_checked", int64(before))
+		// a replacement of the operand of `a ?: b` takes both slots
+		unshared := false
+		var findElvis func(n ast.Node)
+		findElvis = func(n ast.Node) {
+			if cn, ok := n.(*ast.ConditionalNode); ok && elvisBefore[cn] && cn.Cond != cn.Exp1 {
+				unshared = true
+			}
+			for _, s := range childSlots(n) {
+				findElvis(*s)
+			}
+		}
+		findElvis(root)
+		if unshared {
+			c.Violate("elvis-operand-unshared-by-replacement", "after a visitor replaced the operand of `a ?: b` the condition and the first arm are different nodes", map[string]interface{}{"tree": desc, "dump": clip(ast.Dump(root), 1500)})
+			return
+		}
 		if after != 0 || mr.replaced != before || sevens-sevens0 != before {
 			c.Violate("replacement-lost", fmt.Sprintf("%d marker nodes, visitor replaced %d, %d markers remain in the tree, %d replacements present", before, mr.replaced, after, sevens-sevens0),
 				map[string]interface{}{"tree": desc, "dump": clip(ast.Dump(root), 1500)})
